@@ -120,13 +120,40 @@ func ruleC12Gate(e *Env) {
 		return
 	}
 	// the function that constructs the decoder
+	// … or, when the decoder is set up by a helper of its own, the lowest function that reaches both the decoder's
+	// construction and the text parser: the one that dispatches on the first token
+	ut := e.F("size", "unmarshalText")
 	var jv *ssa.Function
+	isNewDecoder := func(g *ssa.Function) bool { return g.String() == "encoding/json.NewDecoder" }
+	reachesDecoder := func(f *ssa.Function) bool {
+		for g := range e.C.Reachable(f) {
+			if len(e.C.Calls(g, isNewDecoder)) > 0 {
+				return true
+			}
+		}
+		return false
+	}
 	for _, f := range flow.SortedFuncs(e.C.Reachable(dp)) {
-		if len(e.C.Calls(f, func(g *ssa.Function) bool { return g.String() == "encoding/json.NewDecoder" })) > 0 {
+		if f == dp || ut == nil || !reachesDecoder(f) || !e.C.Reachable(f)[ut] {
+			continue
+		}
+		lowest := true
+		for _, call := range e.C.Calls(f, flow.InRepo) {
+			if g := e.C.StaticCallee(&call.Call); g != nil && g != f && reachesDecoder(g) && e.C.Reachable(g)[ut] {
+				lowest = false
+			}
+		}
+		if lowest {
 			jv = f
 		}
 	}
-	ut := e.F("size", "unmarshalText")
+	if jv == nil {
+		for _, f := range flow.SortedFuncs(e.C.Reachable(dp)) {
+			if len(e.C.Calls(f, isNewDecoder)) > 0 {
+				jv = f
+			}
+		}
+	}
 	ujo := e.F("size", "unmarshalJSONObject")
 	delimT, numberT := e.jsonType("Delim"), e.jsonType("Number")
 	if jv == nil || ut == nil || ujo == nil || delimT == nil || numberT == nil {
@@ -188,7 +215,18 @@ func ruleC12Gate(e *Env) {
 				return pred.Const{V: constant.MakeBool(true)}, nil
 			},
 		}
-		mk := func() []pred.Val { return []pred.Val{pred.Sym{Name: "input"}, pred.Sym{Name: "r"}} }
+		// the rule parameter by its type, every other parameter is (a form of) the input
+		mk := func() []pred.Val {
+			var out []pred.Val
+			for _, prm := range jv.Params {
+				if nt, ok := prm.Type().(*types.Named); ok && nt.Obj().Name() == "Rule" {
+					out = append(out, pred.Sym{Name: "r"})
+				} else {
+					out = append(out, pred.Sym{Name: "input"})
+				}
+			}
+			return out
+		}
 		leaves, err := extractTree(e.P.SSA, jv, mk, sums, nil, keyOf, binDomain)
 		if err != nil {
 			e.S.Unk(rule, site, sc.name, err.Error(), e.Pos(jv))
@@ -540,6 +578,43 @@ func ruleC12Arms(e *Env) {
 	sentU := e.V("size", "ErrUnexpectedKey")
 	bit, _ := tabConstInt(e, "size", "RuleDisallowUnknownKeys")
 	calls := e.C.Calls(rd, func(f *ssa.Function) bool { return f == skip })
+	// the rule parameter by its type (the gate tests a bit of it)
+	ruleParamOf := func(f *ssa.Function) ssa.Value {
+		for _, prm := range f.Params {
+			if nt, ok := prm.Type().(*types.Named); ok && nt.Obj().Name() == "Rule" {
+				return prm
+			}
+		}
+		return nil
+	}
+	gateFn, ruleParam := rd, ssa.Value(nil)
+	if len(rd.Params) > 1 {
+		ruleParam = rd.Params[1]
+	}
+	if rp := ruleParamOf(rd); rp != nil {
+		ruleParam = rp
+	}
+	if skip != nil && len(calls) == 0 {
+		// the arm extracted into a helper of its own that is handed the rule unchanged
+		for _, hc := range e.C.Calls(rd, flow.InRepo) {
+			h := flow.Origin(e.C.StaticCallee(&hc.Call))
+			inner := e.C.Calls(h, func(f *ssa.Function) bool { return f == skip })
+			hr := ruleParamOf(h)
+			if len(inner) != 1 || hr == nil {
+				continue
+			}
+			passed := false
+			for i, a := range hc.Call.Args {
+				if i < len(h.Params) && ssa.Value(h.Params[i]) == hr && a == ruleParam {
+					passed = true
+				}
+			}
+			if passed {
+				calls, gateFn, ruleParam = inner, h, hr
+			}
+		}
+	}
+	_ = gateFn
 	if skip == nil || sentU == nil || len(calls) != 1 {
 		e.S.Unk(rule, site, "unknown-key arm", "decodeAndSkipNested / ErrUnexpectedKey not found exactly once", e.Pos(rd))
 	} else {
@@ -564,7 +639,7 @@ func ruleC12Arms(e *Env) {
 			}
 			k, isK := flow.ConstInt(and.Y)
 			z, isZ := flow.ConstInt(cmp.Y)
-			if !isK || k != bit || !isZ || z != 0 || and.X != ssa.Value(rd.Params[1]) {
+			if !isK || k != bit || !isZ || z != 0 || and.X != ruleParam {
 				continue
 			}
 			setEdge, clrEdge := id.Succs[0], id.Succs[1]
@@ -595,14 +670,29 @@ func ruleC12Arms(e *Env) {
 func ruleSkipper(e *Env, rule string, skip *ssa.Function) {
 	if skip != nil {
 		ssite := flow.FnName(skip)
-		var depth *ssa.Phi
-		for _, b := range skip.Blocks {
-			for _, in := range b.Instrs {
-				if ph, ok := in.(*ssa.Phi); ok {
-					for _, ed := range ph.Edges {
-						if k, ok := flow.ConstInt(ed); ok && k == 1 {
-							depth = ph
+		findDepth := func(f *ssa.Function) *ssa.Phi {
+			var depth *ssa.Phi
+			for _, b := range f.Blocks {
+				for _, in := range b.Instrs {
+					if ph, ok := in.(*ssa.Phi); ok {
+						for _, ed := range ph.Edges {
+							if k, ok := flow.ConstInt(ed); ok && k == 1 {
+								depth = ph
+							}
 						}
+					}
+				}
+			}
+			return depth
+		}
+		depth := findDepth(skip)
+		if depth == nil {
+			// the counting loop extracted into a helper of its own, called once the opening delimiter has been read
+			for _, f := range flow.SortedFuncs(e.C.Reachable(skip)) {
+				if f != skip && flow.InRepo(f) {
+					if d := findDepth(f); d != nil {
+						depth, skip = d, f
+						break
 					}
 				}
 			}
